@@ -17,7 +17,8 @@ CLAIMED = {
               'clean termination after end with exactly the specified items, latest = last of the lifetime, early-leaver frame, '
               'end starts a new lifetime, close ends every key. Tied to /repo by exact differential correspondence of the '
               'compiled Lean model against the real classes on all short op sequences and seeded random long ones, plus an '
-              'independent oracle and concurrent publishers under a permuting event loop.'),
+              'independent oracle and concurrent publishers under a permuting event loop.' 
+              'Also theorems about close() in flight (the real close() suspends between keys): a key leaves the dict only with its item closed, a closed item stays closed, and whatever other tasks do between the iterations, when the loop ends every key that was in the dict — or was created meanwhile — has been closed; the atomic close of the serial model equals the loop run without interference. Tied by a close-race scenario (subscribe / publish while close() is in flight, random schedules): every subscription started before close() returned terminates.'),
         design='§6 C08, §5 model B',
         note=COMMON_NOTE + 'Assumes F2 (publishing never suspends), which the permuting-loop runs exercise.',
         technique='Lean 4 invariant proof by induction over operation lists + differential correspondence (hand-written model)'),
